@@ -201,7 +201,8 @@ def parseObservationEpoch (v : Values) (s : State) : Except Err State := do
   let ytxt ← getv v "year"
   if !isNumeric ytxt then pure s else do
   let com ← getv v "comment"
-  if (com.head?.map Char.isAlpha).getD false then pure s else do
+  -- columns 61–80 of an epoch record are blank: anything there is a header label (special record of an event)
+  if com ≠ [] then pure s else do
   let y ← pyInt ytxt
   let mo ← pyInt (← getv v "month")
   let d ← pyInt (← getv v "day")
